@@ -12,1230 +12,1173 @@ Definition show_fres (r : fres) : string :=
   end.
 Definition check (rs : list rune) : string := digest (show_fres (format_res rs)).
 Definition full (rs : list rune) : string := show_fres (format_res rs).
-Eval vm_compute in ("<<<M1339>>>" ++ check (runes_of_ascii "options { // c1a
-  // c1b
+Eval vm_compute in ("<<<M1342>>>" ++ check (runes_of_ascii "// top
+options
+    // c0
+{
+    // c1
 FixedStringPadFromLeft // c2a
   // c2b
 = // c3a
   // c3b
-true // c4a
-  // c4b
+true // c4
 ; // c5
-FixedStringPadChar
-    // c6
-= // c7a
+FixedStringPadChar = // c7a
   // c7b
-'0' ;
-    // c9
-} // c10a
-  // c10b
-packet // c11
-Leg // c12a
-  // c12b
-{ InPrice0 // c14
-{ // c15a
-  // c15b
-repeat
-    // c16
-string // c17
+'0' // c8
+; } packet // c11
+Leg { // c13
+InPrice0 // c14a
+  // c14b
+{ // c15
+repeat string
+    // c17
 clOrdID // c18a
   // c18b
 ,
     // c19
 int16 // c20
-msgKind // c21a
-  // c21b
-, // c22a
-  // c22b
-zchar[ // c23
-5
-    // c24
-] Px
-    // c26
-, // c27
-}
+msgKind ,
+    // c22
+zchar[
+    // c23
+5 // c24a
+  // c24b
+] // c25a
+  // c25b
+Px , }
     // c28
-,
-    // c29
-i16 // c30
-f1 // c31
+, // c29a
+  // c29b
+i16
+    // c30
+f1
+    // c31
 ,
     // c32
-repeat // c33a
-  // c33b
-f64 // c34a
-  // c34b
-Side2
-    // c35
-, string
-    // c37
-Acct // c38
-, }
-    // c40
-packet Cancel // c42
-{ zchar[ // c44
-4 ] // c46a
-  // c46b
-clOrdID // c47a
-  // c47b
-, // c48a
-  // c48b
-string // c49
-seqNo // c50
-, // c51a
-  // c51b
-Leg // c52
+repeat
+    // c33
+f64 Side2 // c35a
+  // c35b
 ,
-    // c53
+    // c36
+string
+    // c37
+Acct , } // c40
+packet
+    // c41
+Cancel {
+    // c43
+zchar[ // c44
+4
+    // c45
+] // c46a
+  // c46b
+clOrdID // c47
+,
+    // c48
+string seqNo , Leg // c52a
+  // c52b
+, // c53
 @leftPad // c54a
   // c54b
-( '0' // c56
-)
-    // c57
-char[ 11
-    // c59
-]
-    // c60
-OrderId // c61
+(
+    // c55
+'0' // c56a
+  // c56b
+) char[ // c58a
+  // c58b
+11 // c59a
+  // c59b
+] OrderId // c61
+, }
+    // c63
+packet // c64
+Quote
+    // c65
+{
+    // c66
+repeat // c67a
+  // c67b
+char[ // c68a
+  // c68b
+4
+    // c69
+] // c70a
+  // c70b
+sym // c71a
+  // c71b
 ,
-    // c62
-} packet
-    // c64
-Quote // c65a
-  // c65b
-{ repeat
-    // c67
-char[ 4 // c69
-] sym // c71
-, // c72
-f64 OrderId ,
-    // c75
-repeat
-    // c76
-Leg , // c78a
-  // c78b
-repeat i64 // c80
+    // c72
+f64 // c73a
+  // c73b
+OrderId // c74
+, repeat // c76
+Leg , repeat
+    // c79
+i64
+    // c80
 f1 // c81a
   // c81b
 , // c82
-int16
-    // c83
-Note
-    // c84
-, zchar[ 3 // c87a
-  // c87b
-] count
-    // c89
+int16 Note // c84a
+  // c84b
+, zchar[ // c86a
+  // c86b
+3
+    // c87
+] count // c89
 , } // c91
-root
-    // c92
-packet Ack { // c95a
+root packet // c93
+Ack { // c95a
   // c95b
-@leftPad
-    // c96
-(
-    // c97
-' ' // c98a
-  // c98b
-) char[
-    // c100
-10
-    // c101
-] // c102a
+@leftPad // c96
+( ' ' // c98
+) // c99a
+  // c99b
+char[ 10 ] // c102a
   // c102b
-sym // c103a
-  // c103b
-, // c104
-InPx60 // c105
-{ Cancel // c107a
+sym , InPx60 // c105
+{
+    // c106
+Cancel // c107a
   // c107b
-, // c108
-repeat char[ 1 // c111
-] f1 // c113
-, // c114a
-  // c114b
-string // c115
-Tail ,
-    // c117
-repeat // c118a
-  // c118b
+, // c108a
+  // c108b
+repeat char[ // c110
+1 ] // c112a
+  // c112b
+f1
+    // c113
+, // c114
+string
+    // c115
+Tail , repeat // c118
 InNote55
     // c119
-{ // c120
-int8 count
-    // c122
-,
-    // c123
-f64 // c124a
-  // c124b
+{
+    // c120
+int8 // c121a
+  // c121b
+count // c122a
+  // c122b
+, // c123a
+  // c123b
+f64
+    // c124
 f1 // c125a
   // c125b
-, repeat Cancel
+, // c126a
+  // c126b
+repeat
+    // c127
+Cancel
     // c128
-, // c129a
-  // c129b
+,
+    // c129
 }
     // c130
-,
-    // c131
-char[]
-    // c132
-tag7
-    // c133
-, repeat // c135a
-  // c135b
-string
-    // c136
-msgKind
-    // c137
-, } , // c140
+, // c131
+char[] // c132a
+  // c132b
+tag7 ,
+    // c134
+repeat
+    // c135
+string // c136
+msgKind , // c138
+} // c139a
+  // c139b
+, // c140a
+  // c140b
 u8
     // c141
-lastPx ,
-    // c143
-match // c144
-lastPx
-    // c145
-as // c146a
-  // c146b
-Body // c147
-{
-    // c148
-152 : Quote , // c152a
-  // c152b
-173 // c153
-: // c154a
-  // c154b
-Cancel
-    // c155
+lastPx , match // c144
+lastPx // c145a
+  // c145b
+as Body // c147a
+  // c147b
+{ 152 : // c150
+Quote ,
+    // c152
+173 : // c154
+Cancel // c155
 , // c156a
   // c156b
-4 : // c158a
+4 // c157
+: // c158a
   // c158b
-Leg // c159a
-  // c159b
-, } // c161
-, u16
-    // c163
-Ref // c164
-@calculatedFrom(
-    // c165
-""CRC32""
-    // c166
-) // c167a
-  // c167b
+Leg
+    // c159
+,
+    // c160
+} // c161a
+  // c161b
+,
+    // c162
+u16 Ref @calculatedFrom( ""CRC32"" )
+    // c167
 , // c168a
   // c168b
 }
     // c169
 ")).
-Eval vm_compute in ("<<<M279>>>" ++ check (runes_of_ascii "  root packet
-    crc {	uint32
-repeatCount //
-@lengthOf( // a // b
-MetaDataX	) `say ""hi""` ,
-    @tag( 65535 ) A {
-    u128 , u8x	{ repeatCount  @lengthOf( As )// c
-,// packet A { u8 x, }
-i32	_x@calculatedFrom(//	t
-""" ++ [128512]%N ++ runes_of_ascii """	), } , } // c
+Eval vm_compute in ("<<<M1330>>>" ++ check (runes_of_ascii "// top
+packet // c0a
+  // c0b
+Frame // c1a
+  // c1b
+{ // c2a
+  // c2b
+u8 // c3
+HK // c4
 ,
-@lengthOf(As ) @tag(  0 ) @tag(4294967296 ) string metadata ,
-string lengthOf // `tick` ""quote"" 'q'
-@lengthOf(f32a) , @tag( 3 )string packetx,	@lengthOf( Pad) @lengthOf( packetx ) BodyLength @calculatedFrom( ""a	b"" )
-, repeat u8x
-{ zchar[ 3 ]
-    tag `doc` , match As as leftPad
-    { [
-    10 ,
-3 , 7 ,
-""abc"" , 42 // @lengthOf(
-]
+    // c5
+u8
+    // c6
+BK // c7
+, // c8a
+  // c8b
+u8 // c9
+TK // c10
+, // c11a
+  // c11b
+match // c12
+HK as Hdr // c15a
+  // c15b
+{ // c16
+1
+    // c17
 :
-A
-, } , match Header as falsey { 42
-// `tick` ""quote"" 'q'
-// trailing space 
+    // c18
+HdrA , 2 // c21
 :
-    msg_type
-    , 00
-: A
-1 :
-charz ,""// no comment"" : int // @lengthOf(
-,	0123456789 :chars , 4294967296
-: x } ,
-}
-    /// triple
-    , @tag(
-10 ) @tag(//x
-007 )
-@calculatedFrom( ""`tick`""
-    )i8i8 @lengthOf(
-    //
-    charz ),
-    char[ 7] Header
-, } packet
-lengthOf // @lengthOf(
-{match metadata
-    // " ++ [128512]%N ++ runes_of_ascii " emoji
-    as asx{ 7 // packet A { u8 x, }
-: //
-float  ,
-    // " ++ [128512]%N ++ runes_of_ascii " emoji
-    """ ++ [233]%N ++ runes_of_ascii "t" ++ [233]%N ++ runes_of_ascii """:
-stringy
-, """ ++ [28040; 24687]%N ++ runes_of_ascii """ :
-BodyLength , 7 : leftPad , } , @lengthOf(MetaDataX
-)repeat zchar[ 7 ]float , @tag( 0
-    )matchKey @calculatedFrom(""packet""
-    ) // packet A { u8 x, }
-, }packet Pad{ options1 @lengthOf(rootA ),} root // c
-packet BodyLength{
-string uint8x
-//
-// " ++ [27880; 37322]%N ++ runes_of_ascii "
-@lengthOf( Z9_) , } // c")).
-Eval vm_compute in ("<<<M384>>>" ++ check (runes_of_ascii "options {
-	StringPrefixLenType = u16;
-	ArrayPrefixLenType = u16;
-}
-
-packet SampleBinary {
-	uint16 MsgType `" ++ [28040; 24687; 31867; 22411]%N ++ runes_of_ascii "`,
-	u16 BodyLenght @lengthOf(Body) `" ++ [28040; 24687; 20307; 38271; 24230]%N ++ runes_of_ascii "`,
-	match MsgType as Body {
-		1 : Logon,
-		2 : Logout,
-		3 : Heartbeat,
-		4 : RiskControlRequest,
-		5 : RiskControlResponse,
-	},
-		@calculatedFrom(""CRC32"")
-	u32 Ckecksum `" ++ [26657; 39564; 21644]%N ++ runes_of_ascii "`,
-}
-
-packet Logon {
-	 @leftPad('0')
-	char[10] UserName `" ++ [29992; 25143; 21517]%N ++ runes_of_ascii "`,
-	string Password `" ++ [23494; 30721]%N ++ runes_of_ascii "`,
-	uint64 ClientId `" ++ [23458; 25143; 31471]%N ++ runes_of_ascii "ID`,
-	u16 HeartbeatInterval `" ++ [24515; 36339; 38388; 38548]%N ++ runes_of_ascii "`,
-}
-
-packet Logout {
-	  @rightPad('0')
-	char[10] UserName `" ++ [29992; 25143; 21517]%N ++ runes_of_ascii "`,
-	uint64 ClientId `" ++ [23458; 25143; 31471]%N ++ runes_of_ascii "ID`,
-}
-
-packet Heartbeat {
-}
-
-packet RiskControlRequest {
-	string UniqueOrderId `" ++ [21807; 19968; 35746; 21333; 21495]%N ++ runes_of_ascii "`,
-	char[16] ClOrdID `" ++ [23458; 25143; 35746; 21333; 21495]%N ++ runes_of_ascii "`,
-	char[3] MarketID `" ++ [24066; 22330]%N ++ runes_of_ascii "id`,
-	char[12] SecurityID `" ++ [35777; 21048; 20195; 30721]%N ++ runes_of_ascii "`,
-	char Side `" ++ [20080; 21334; 26041; 21521]%N ++ runes_of_ascii "`,
-	char OrderType `" ++ [35746; 21333; 31867; 22411]%N ++ runes_of_ascii "`,
-	u64 Price `" ++ [20215; 26684]%N ++ runes_of_ascii "`,
-	u32 Qty `" ++ [25968; 37327]%N ++ runes_of_ascii "`,
-	repeat string ExtraInfo `" ++ [38468; 21152; 20449; 24687]%N ++ runes_of_ascii "`,
-	repeat SubOrder {
-			char[16] ClOrdID `" ++ [23376; 35746; 21333; 21495]%N ++ runes_of_ascii "`,
-			u64 Price `" ++ [23376; 35746; 21333; 20215; 26684]%N ++ runes_of_ascii "`,
-			u32 Qty `" ++ [23376; 35746; 21333; 25968; 37327]%N ++ runes_of_ascii "`,
-		},
-}
-
-packet RiskControlResponse {
-	string UniqueOrderId `" ++ [21807; 19968; 35746; 21333; 21495]%N ++ runes_of_ascii "`,
-	i32 Status `" ++ [29366; 24577]%N ++ runes_of_ascii "`,
-	string Msg `" ++ [32467; 26524; 20449; 24687]%N ++ runes_of_ascii "`,
-	repeat Detail,
-}
-
-packet Detail {
-	string RuleName `" ++ [35268; 21017; 21517; 31216]%N ++ runes_of_ascii "`,
-	u16 Code `" ++ [21407; 22240; 20195; 30721]%N ++ runes_of_ascii "`,
-}")).
-Eval vm_compute in ("<<<M1333>>>" ++ check (runes_of_ascii "// top
-options // c0
-{ LittleEndian
-    // c2
-= // c3a
-  // c3b
-false // c4
-; // c5a
-  // c5b
-StringPrefixLenType // c6
-= // c7a
-  // c7b
-u8 ; ArrayPrefixLenType =
-    // c11
-u64 // c12
-;
-    // c13
-FixedStringPadFromLeft
-    // c14
-= false ; // c17a
-  // c17b
-FixedStringPadChar = // c19a
-  // c19b
-' ' ;
-    // c21
-} // c22
-packet Reject // c24a
+    // c22
+HdrB // c23
+, // c24a
   // c24b
-{ repeat // c26
-char[ // c27a
-  // c27b
-4 // c28
-]
+} ,
+    // c26
+match
+    // c27
+BK as
     // c29
-seqNo , // c31
-string // c32a
-  // c32b
-Px // c33a
-  // c33b
-, // c34
-} root
-    // c36
-packet // c37
-Trade
-    // c38
-{ // c39a
-  // c39b
-@rightPad // c40
-(
-    // c41
-'0' ) // c43a
-  // c43b
-char[ // c44
-2 // c45
-] msgKind , // c48
-repeat
-    // c49
-f64 // c50a
-  // c50b
-price
-    // c51
-, // c52
-InAcct79 // c53
+Body // c30
 {
-    // c54
-repeat
-    // c55
-Reject , // c57a
-  // c57b
-zchar[ // c58
-7 // c59a
-  // c59b
-] // c60a
-  // c60b
-OrderId // c61
+    // c31
+1 : // c33a
+  // c33b
+BodyA // c34
 ,
+    // c35
+2 :
+    // c37
+BodyB , } // c40a
+  // c40b
+, // c41
+match // c42
+TK
+    // c43
+as // c44
+Trl // c45a
+  // c45b
+{ // c46a
+  // c46b
+1
+    // c47
+: // c48
+TrlA , // c50a
+  // c50b
+} // c51a
+  // c51b
+, // c52a
+  // c52b
+} // c53a
+  // c53b
+packet HdrA // c55
+{ u8 // c57
+a // c58a
+  // c58b
+, // c59
+} // c60
+packet // c61a
+  // c61b
+HdrB
     // c62
-} // c63a
+{ // c63a
   // c63b
-, Reject , } // c67a
-  // c67b
+u16
+    // c64
+b // c65
+, // c66
+} // c67
+packet // c68
+BodyA { // c70a
+  // c70b
+u32
+    // c71
+c // c72
+, } // c74
+packet
+    // c75
+BodyB {
+    // c77
+u64 // c78a
+  // c78b
+d // c79
+, // c80a
+  // c80b
+} // c81a
+  // c81b
+packet TrlA // c83a
+  // c83b
+{
+    // c84
+u8 e // c86
+,
+    // c87
+} // c88a
+  // c88b
+root // c89a
+  // c89b
+packet
+    // c90
+Msg
+    // c91
+{ Frame , // c94a
+  // c94b
+u8 // c95a
+  // c95b
+x // c96a
+  // c96b
+, // c97a
+  // c97b
+}
+    // c98
 ")).
-Eval vm_compute in ("<<<M1656>>>" ++ check (runes_of_ascii "packet u128 {
-    @rightPad(' ')
-    i64_ {
-        Logon,
-        char[4294967296] MetaDataX @calculatedFrom(""" ++ [28040; 24687]%N ++ runes_of_ascii """),
+Eval vm_compute in ("<<<M1644>>>" ++ check (runes_of_ascii "root packet metadata {
+    @lengthOf(options1)
+    int32 zchar @calculatedFrom(""// no comment"") `
+    `,
+    repeat calculatedFrom `it's`,//
+    match BodyLength as lengthOf {
+        3 : leftPad,
     },
-    rootA {
-        zchar[1] rootA,
-        asx {
-            rootA @calculatedFrom(""abc""),
-            repeat uint16 x_y_z,
-            // packet A { u8 x, }
-            zchar[42] stringy,
-            body,
+    repeat u128,
+    char[10] chars,// @lengthOf(
+    falsey @calculatedFrom(""x y"") `{ , }`,
+    @tag(42)
+    float64 i64_,
+    u8x @calculatedFrom(""{,}"") `two words`,
+    @lengthOf(T)
+    char[255] pack `it's`,
+    match MetaDataX as i64_ {
+        //
+        """ ++ [28040; 24687]%N ++ runes_of_ascii """ : Header,
+        0 : x_y_z,
+        3 : int,
+        ""abc"" : u8x,
+    },
+}
+
+packet i64_ {
+    @rightPad()
+    /// triple
+    pack {
+        match MetaDataX as trueish {
+            1 : len,
+            00 : falsey,
+            """" : x,
         },
     },
-    @leftPad('\x00')
-    char[3] Z9_ @lengthOf(roots) `" ++ [233]%N ++ runes_of_ascii "`,
-    @lengthOf(charz)
-    @leftPad('0')
-    @calculatedFrom(""a\""b"")
-    zchar[7] a1 @calculatedFrom(""\" ++ [233]%N ++ runes_of_ascii """) `// not a comment`,
-    @lengthOf(lengthOf)
-    repeat i16 chars,
-    int {
-        //	t
-        zchar[1] calculatedFrom `line1
-                line2`,
-        Packet `" ++ [28040; 24687; 31867; 22411]%N ++ runes_of_ascii "`,
-    },// " ++ [128512]%N ++ runes_of_ascii " emoji
-    @rightPad('\x00')
-    zchar[255] repeatCount @calculatedFrom(""\" ++ [233]%N ++ runes_of_ascii """),
-    repeat char[] Pad `a\`,
-    @lengthOf(pack)
-    i8 int,
+    @tag(1)
+    char[] int @lengthOf(metadata),
+    a1 @lengthOf(calculatedFrom),
+    @tag(7)
+    tag @lengthOf(u),
+    BodyLength @calculatedFrom(""it's"") `say ""hi""`,
+    string msg_type,
+}
+
+MetaData Logon {
+    BodyLength _x `it's`,
+    int32 body,
+    // trailing space 
+}
+
+root packet body {
 }")).
 Eval vm_compute in ("<<<M1353>>>" ++ check (runes_of_ascii "options {
-    StringPrefixLenType = u16;
+    StringPrefixLenType = u64;
     ArrayPrefixLenType = u32;
-    FixedStringPadFromLeft = true;
-    FixedStringPadChar = '0';
-}
-packet Cancel {
+    FixedStringPadFromLeft = false;
 }
 packet Party {
+    zchar[7] OrderId,
+    InTail6 {
+        repeat char[1] msgKind,
+        char[3] Tail,
+        char[3] Flags,
+        i16 tag7,
+    },
+    @rightPad('0') char[12] clOrdID,
+}
+packet Quote {
+    @leftPad('0') char[11] price,
+    repeat InCount7 {
+        i32 x,
+        Party,
+        u8 Ref,
+        u8 tag7,
+    },
+    char[] seqNo,
+    Party,
 }
 packet Logon {
-}
-packet Ack {
-}
-packet Logout {
-    repeat InSym87 {
-        InClordid94 {
-            string clOrdID,
-        },
-        string Px,
-        i16 Qty,
-        repeat InCount71 {
-            repeat Cancel,
-            uint16 Tail,
-            char[2] x,
-            repeat string Ref,
-        },
-        Cancel,
+    @rightPad('\x00') char[5] Note,
+    i16 sym,
+    InPrice72 {
+        char[9] Ref,
+        zchar[1] venue,
     },
+    char[] clOrdID,
 }
-root packet Order {
-    repeat string tag7,
-    @leftPad(' ') char[3] Px,
-    u8 Qty,
-    match Qty as Body {
-        [28, 62] : Logon,
-        148 : Ack,
-        88 : Party,
-        184 : Cancel,
+root packet Reject {
+    repeat Logon,
+    @leftPad(' ') char[4] seqNo,
+    zchar[5] Acct,
+    u32 x,
+    u16 f1 @lengthOf(Body),
+    match x as Body {
+        [169, 74] : Quote,
+        45 : Party,
+        7 : Logon,
     },
-    u16 Note @calculatedFrom(""CRC32""),
 }
 ")).
-Eval vm_compute in ("<<<M1641>>>" ++ check (runes_of_ascii "packet u128 {
-    repeat char[65535] float,
-}
+Eval vm_compute in ("<<<M1602>>>" ++ check (runes_of_ascii "
+root packet  leftPad
 
-options {
-    f32a = char[];
-}
-
-packet _x {
-    @rightPad('0')
-    // packet A { u8 x, }
-    @lengthOf(i8i8)
-    @lengthOf(lengthOf)
-    repeat Z9_ `crlf
-    line`,
-    string_ {
-        // `tick` ""quote"" 'q'
-        // c
-        zchar[7] x_y_z,
-        Header x `line1
-        line2`,
-    },//	t
-    @leftPad()
-    match float as x_y_z {
-        """ ++ [28040; 24687]%N ++ runes_of_ascii """ : metadata,
-        007 : A,
-        00 : falsey,
-        0123456789 : Foo,
-        0123456789 : zchar,
-    },
-    @calculatedFrom(""1"")
-    @tag(0)
-    char[00] options1,
-}
-
-packet Pad {
-    u16 body @lengthOf(stringy),
-}
-
-options {
-    BodyLength = '0'
-    msg_type = ""a\""b"";
-}")).
-Eval vm_compute in ("<<<M1735>>>" ++ check (runes_of_ascii "  packet float  
-      // c1
-
-	{	// c2
-@rightPad 	 // c3a
-	// c3b
-      ( 	 // c4a
-// c4b
-    )// c5a
-  	// c5b
-rootA  // c6
-
-@lengthOf(  // c7a
-// c7b
-	trueish  // c8
-) 
-  // c9
-  , 
-        // c10
-stringy  // c11a
-    // c11b
-  @lengthOf( 	 // c12a
-
-  // c12b
-      matchKey ) 
-	    // c14
-    	,// c15a
-  // c15b
-	char[ 4294967296 ] 
-	    // c18
-pack@lengthOf(
-        // c20
-    uint8x
-	// c21
-
-  ) 	 // c22a
-  // c22b
-  ,
-// c23
-    } // c24
-  root// c25
-  	packet
-	trueish
 { 
-	    // c28
-    	repeat
-    uint64
-
-// c30
-	u128 
-// c31
-`line1
-line2`// c32
-
-, 
-
-// c33
-  } 
-
-// c34
-")).
-Eval vm_compute in ("<<<M1727>>>" ++ check (runes_of_ascii "
-options	{
-
-rootA
-
-=
-4294967296;
-falsey =""a\""b""; As = 
-
-    // @lengthOf(
-  /// triple
-	"""" ;
-packetx  =
-""packet""
-
-    i8i8= true
-;
-
-    } 	 // `tick` ""quote"" 'q'
-  packet
-x {
-    repeat zchar 
-rootA	,
-	char[]	pack
-	`// not a comment`
-, 
-@tag(  00
-)	@tag(
-0123456789
-)
-u
-
-@calculatedFrom( ""packet""	) 
-`u8 x,` ,
-
-    Header { 
-zchar[ 00  ]
-body ,
-    a1
-@calculatedFrom( 	 // " ++ [128512]%N ++ runes_of_ascii " emoji
-	""it's"" ) `" ++ [233]%N ++ runes_of_ascii "`  ,
-
-    }
-
-    , }// " ++ [27880; 37322]%N ++ runes_of_ascii "
-	MetaData
-A// a // b
-      {
-zchar/// triple
-    matchKey
-
-    ``,
-int64	metadata,
-	char[] _x 	 //	t
-    ,
-    }")).
-Eval vm_compute in ("<<<M1765>>>" ++ check (runes_of_ascii "packet leftPad {
-    match A as x {
-        ""`tick`"" : MetaDataX,
-        [""it's"", ""\n"", """ ++ [28040; 24687]%N ++ runes_of_ascii """] : string_,
-        0123456789 : o,
-        [""{,}"", ""x y""] : uint8x,
-    },
-    char[3] msg_type @lengthOf(u) `two words`,
-    // c
-    repeat int Foo,
-    @rightPad()
-    @rightPad(' ')
-    Foo charz `{ , }`,
-}
-
-MetaData A {
-    zchar[0] A `{ , }`,
-    float32 a1,
-    char[] pack,/// triple
-    string body `" ++ [233]%N ++ runes_of_ascii "`,
-    string chars `doc`,
-    int _x `two words`,
-}
-
-options {
-    Z9_ = uint16;
-}")).
-Eval vm_compute in ("<<<M180>>>" ++ check (runes_of_ascii "options
-    // @lengthOf(
-    {}
-packet charz { @rightPad (  ' ') @calculatedFrom(
-    ""a\\"" ) repeat int	crc `two words` , string stringy
-    @calculatedFrom( ""a	b""
-    // " ++ [128512]%N ++ runes_of_ascii " emoji
-    )`// not a comment`	,//
-char i8i8,
-}  MetaData	crc {// `tick` ""quote"" 'q'
-crc i64_`{ , }`
-,
-    // `tick` ""quote"" 'q'
-    i32// c
-u128 ,// packet A { u8 x, }
-BodyLength Header
-    ,char[ 0123456789]
-/// triple
-//
-Packet `u8 x,`
-, uint8 repeatCount , //	t
-}")).
-Eval vm_compute in ("<<<M1642>>>" ++ check (runes_of_ascii "
-
-  packet
-
-    BodyLength {repeatCount// packet A { u8 x, }
-`// not a comment` ,
-	@lengthOf(	lengthOf )	@tag(65535 
-) 
-@rightPad 
-( 
-// @lengthOf(
-	  //	t
-'0'
-
-)	/// triple
-	  u8
-	Logon
-,
-} packet  chars
-	{ 
-o msg_type	, @tag(
-	10
-
-    )
-zchar[	65535]
-f32a
-
-    ,repeat char[]  i64_
-	`
-`
-
-    ,	} root  packet
-	f32a{
-    @tag(
-
-    255
-
-    ) 
-repeat u8
-
-    stringy 
-, 
-}
-
-")).
-Eval vm_compute in ("<<<M15>>>" ++ check (runes_of_ascii "MetaData // c
-u128{
-    }MetaData
-    a1 {
-}
-    root packet	o {	char[
-10 ]  stringy @lengthOf( Z9_) ,
-match
-x_y_z as stringy
-{	3
-: float ,
-    } , @leftPad //	t
-( ' '
-    ) u128 {	repeat i32 msg_type `crlf
-line` , x	, repeat char[	65535
-] T, match
-    A as
-i8i8 { """ ++ [128512]%N ++ runes_of_ascii """ : Logon
-, } //
-, } ,
-@rightPad (  '\x00') repeat x_y_z options1 `two words` , }
-")).
-Eval vm_compute in ("<<<M368>>>" ++ check (runes_of_ascii "MetaData T
-    {
-uint8
-float ,
-repeatCount x ,	char[ 10  ] asx /// triple
-, char[ 00]
-metadata
-    `" ++ [233]%N ++ runes_of_ascii "` ,u8x asx//	t
-, } MetaData
-    trueish {	charz	string_ `crlf
-line`,  zchar[ 42 ]	_x
-//
-// `tick` ""quote"" 'q'
-, }packet o { char[]u8x
-    @calculatedFrom(""abc""  ) , } options{ x
-=
-    255 ; u // " ++ [27880; 37322]%N ++ runes_of_ascii "
-= '0'	}
-")).
-Eval vm_compute in ("<<<M1633>>>" ++ check (runes_of_ascii "
-options{	LittleEndian=
-true
-
-; 
-}  packet Logon	{u8  x
-    ,
-    string
-user
-,  }	packet
-Logout
-
-    {
-
-    u16
-reason ,
-	}packet
-	Empty { }
-
-root
-packet
-
-Frame 
-{ u16
-
-    MsgType , u8
-	BodyLen  @lengthOf(
-Body
-    ) ,	u8	flags
-
-,  Logon
-
-Body 
-,
-u32 trailer ,  }")).
-Eval vm_compute in ("<<<M1919>>>" ++ check (runes_of_ascii "
-root packet string_ 
-{@leftPad
-	( ' '  ) chars {
-repeat zchar[
-
-    0	]
-
-    tag ,
-
-    string	falsey ,// " ++ [128512]%N ++ runes_of_ascii " emoji
-	  repeat
-    char[
-	007  ]
-    body	`two words`
-	,
-
-}
-,
 @calculatedFrom(
-""// no comment"" ) Foo
-	T
-    ,// " ++ [128512]%N ++ runes_of_ascii " emoji
-}
-")).
-Eval vm_compute in ("<<<M1427>>>" ++ check (runes_of_ascii "// top
-MetaData leftPad {
-    // c2
-    chars MetaDataX,
-    // c5
-}
-
-// c6
-packet repeatCount {
-    // c9
-    char[255] uint8x `" ++ [233]%N ++ runes_of_ascii "`,
-    // c15
-}
-
-// c16
-MetaData pack {
-    // c19
-    As Foo,
-    // c22
-}
-// c23")).
-Eval vm_compute in ("<<<M1323>>>" ++ check (runes_of_ascii "root packet Frame {
-    u8 K,
-    Logon first,
-    match K as Body {
-        1 : Logon,
-        2 : Logout,
-    },
-}
-packet Logon {
-    string user,
-}
-packet Logout {
-    u16 reason,
-}
-")).
-Eval vm_compute in ("<<<M1777>>>" ++ check (runes_of_ascii "MetaData falsey  {
-o
-i8i8
+""" ++ [128512]%N ++ runes_of_ascii """
+)int64
+len `{ , }`
 ,
+} packet
+u128 {	zchar[
 
-char[]
+65535
+    ] chars
 
-    pack
-    ,float32
+    @calculatedFrom(""\" ++ [233]%N ++ runes_of_ascii """
+    ) ,
+@lengthOf(int
+    // packet A { u8 x, }
+// @lengthOf(
+)
+i64_
+	,
+	crc
+	{
+    match Z9_ as  Logon{
+	10 
+:
+    int ,
 
-    lengthOf
+[ 0
+	] 
+: u8x
 
-    ,	len //x
-    	BodyLength
+    , 
 
-, 
-BodyLength 
-o
+// trailing space 
+    //x
+    	42 : 
+trueish ,	[ 
+""\" ++ [233]%N ++ runes_of_ascii """ ,	4294967296
+]
+	:
+	Z9_""\n""
+	:
 
-, stringy	u128`crlf
-line`
-	,}
-")).
-Eval vm_compute in ("<<<M406>>>" ++ check (runes_of_ascii "packet uint8x
-{ match match pack
-    as msg_type	{
-    0123456789 :	float
-}
+u128
+
+    ,}
+    ,
+    repeat	string_
+
+uint8x
+
 ,
-} packet //	t
-a1
-    { } options {packetx
-    = '\x00'	; u128= ""a	b""  ; }
-")).
-Eval vm_compute in ("<<<M401>>>" ++ check (runes_of_ascii "packet uint8x
-{ { match pack
-    as msg_type	{
-    0123456789 :	float
-}
-,
-} packet //	t
-a1
-    { } options {packetx
-    = '\x00'	; u128= ""a	b""  ; }
-")).
-Eval vm_compute in ("<<<M549>>>" ++ check (runes_of_ascii "pa\cket uint8x
-{ match pack
-    as msg_type	{
-    0123456789 :	float
-}
-,
-} packet //	t
-a1
-    { } options {packetx
-    = '\x00'	; u128= ""a	b""  ; }
-")).
-Eval vm_compute in ("<<<M507>>>" ++ check (runes_of_ascii "packet uint8x
-{ match pack
-    as msg_type	{
-    0123456789 :	float
-}
-,
-} packet //	t
-a1
-    { } options {packetx
-    = '\x00'	u128 ;= ""a	b""  ; }
-")).
-Eval vm_compute in ("<<<M465>>>" ++ check (runes_of_ascii "packet uint8x
-{ match pack
-    as msg_type	{
-    0123456789 :	float
-}
-,
-} packet //	t
+	i8i8
 
-    { } options {packetx
-    = '\x00'	; u128= ""a	b""  ; }
-")).
-Eval vm_compute in ("<<<M684>>>" ++ check (runes_of_ascii "// @lengthOf(
-packet i8i8 { u128 o , }
-options { MetaDataX = true;
-    BodyLength =""packet"" x_y_z= 007
-crc //x
-= ""abc"" ;
-    msg_type =
-i16 } }")).
-Eval vm_compute in ("<<<M685>>>" ++ check (runes_of_ascii "// @lengthOf(
-packet i8i8 { u128 o , }
-options { MetaDataX = true;
-    BodyLength =""packet"" x_y_z= 007
-crc //x
-= ""abc"" ;
-    = msg_type
-i16 }")).
-Eval vm_compute in ("<<<M1452>>>" ++ check (runes_of_ascii "packet A {
-    Inner {
-        u8 x `
-                x`,
-        Deep {
-            u8 y `
-                        x`,
-        },
-    },
-}")).
-Eval vm_compute in ("<<<M719>>>" ++ check (runes_of_ascii "// @lengthOf(
-packet i8i8 { u128 o , }
-options { MetaDataX = true;
-     =""packet"" x_y_z= 007
-crc //x
-= ""abc"" ;
-    msg_type =
-i16 }")).
-Eval vm_compute in ("<<<M1875>>>" ++ check (runes_of_ascii "root packet lengthOf {
-    @leftPad(' ')
-    repeat char MetaDataX,
-}
+    ,match
+    u 
+as
+    body{
+	4294967296  : 
+        // " ++ [27880; 37322]%N ++ runes_of_ascii "
+	/// triple
 
-MetaData Pad {
-    msg_type rootA `// not a comment`,
-}")).
-Eval vm_compute in ("<<<M1842>>>" ++ check (runes_of_ascii "packet A {
-    Inner {
-        u8 x `x
-        `,
-        Deep {
-            u8 y `x
-            `,
-        },
-    },
-}")).
-Eval vm_compute in ("<<<M1171>>>" ++ check (runes_of_ascii "MetaData leftPad { chars MetaDataX , } packet repeatCount { char[ 255 ] uint8x `" ++ [233]%N ++ runes_of_ascii "` // c
-, } MetaData pack { As Foo , }")).
-Eval vm_compute in ("<<<M302>>>" ++ check (runes_of_ascii "packet string_{@lengthOf(	float ) // @lengthOf(
-BodyLength { match uint8x as i64_ { 0123456789
-: As
-    , } , } , }")).
-Eval vm_compute in ("<<<M1478>>>" ++ check (runes_of_ascii "
-packet
-    A {
-match k as
+Z9_,  10
+: Z9_ ,
 
-    n { 
 [
 
-1 ,
-22 ,007 
-,
-	4
-	, 
-5
+    """ ++ [128512]%N ++ runes_of_ascii """ ,
+""x y""
 
-, 66 ]  :  B ,
-
-    2
-	:  C}
+]
+:
+	pack ,  }
     , }
 
-")).
-Eval vm_compute in ("<<<M158>>>" ++ check (runes_of_ascii "
-MetaData charz { As u128 , Logon options1 `say ""hi""` ,
-    zchar[ 0
-// @lengthOf(
-//
-]Logon ,
-    }
-")).
-Eval vm_compute in ("<<<M1558>>>" ++ check (runes_of_ascii "root packet
-SimpleMessage
+    ,
+@tag(// " ++ [128512]%N ++ runes_of_ascii " emoji
+	0123456789
+	)  @lengthOf(
 
-{uint16 
-MsgType
+    calculatedFrom
+    )	@leftPad(	'\x00'  // c
+    ) 
+zchar[
+3  ]T	,	match A
 
-`" ++ [28040; 24687; 31867; 22411]%N ++ runes_of_ascii "`,  string
-
-JsonBody
-`Json" ++ [23383; 31526; 20018; 28040; 24687; 20307]%N ++ runes_of_ascii "` ,
-
-    }
-")).
-Eval vm_compute in ("<<<M624>>>" ++ check (runes_of_ascii "
-packet
-    asx {match u128 as lengthOf
+    as  leftPad
 {
-//	t
-// `tick` ""quote"" 'q'
-255 : x ,
-    } ,	repeat")).
-Eval vm_compute in ("<<<M603>>>" ++ check (runes_of_ascii "
-packet
-    asx {match u128 as lengthOf
-{
-//	t
-// `tick` ""quote"" 'q'
-255 : x x ,
-    } ,	}")).
-Eval vm_compute in ("<<<M574>>>" ++ check (runes_of_ascii "
-packet
-    asx {match as u128 lengthOf
-{
-//	t
-// `tick` ""quote"" 'q'
-255 : x ,
-    } ,	}")).
-Eval vm_compute in ("<<<M643>>>" ++ check (runes_of_ascii "
-packet
-    asx {match x" ++ [178]%N ++ runes_of_ascii " as lengthOf
-{
-//	t
-// `tick` ""quote"" 'q'
-255 : x ,
-    } ,	}")).
-Eval vm_compute in ("<<<M866>>>" ++ check (runes_of_ascii "packet A {
-  match k as n {
-    [1, 22, 007, 4, 5, 66, 7, 8, 9] : B
-    2 : C
-  },
-}")).
-Eval vm_compute in ("<<<M823>>>" ++ check (runes_of_ascii "packet A {
-  match k as n {
-    [""a"", ""bb"", 007, ""d"", ""e""] : B,
-    2 : C
-  },
-}")).
-Eval vm_compute in ("<<<M1467>>>" ++ check (runes_of_ascii "root packet P {
-    u16 a,
-    u32 Sum @calculatedFrom(""CR\
-        C32""),
-}")).
-Eval vm_compute in ("<<<M1485>>>" ++ check (runes_of_ascii "
 
-  packet	body { i32 
-f32a
-`{ , }`
-	,
-
-    }
-
-options { 	 // c
-
-  }
+[ """ ++ [28040; 24687]%N ++ runes_of_ascii """]	:
+	i64_""// no comment"": string_ ,} , }	// trailing space 
 ")).
-Eval vm_compute in ("<<<M1087>>>" ++ check (runes_of_ascii "packet A { match k as n { [ // a
- 1 // b
- , // c
- 2 ] // d
- : B }, }")).
-Eval vm_compute in ("<<<M1517>>>" ++ check (runes_of_ascii "
+Eval vm_compute in ("<<<M219>>>" ++ check (runes_of_ascii "
+packet
+falsey{ // `tick` ""quote"" 'q'
+repeat charz
+    /// triple
+    float // a // b
+`tab	here`
+    ,
+char[]stringy  , Logon
+    f32a,
+    char[] string_/// triple
+,
+int16
+_x
+`` ,
+    match/// triple
+crc as stringy { ""abc"" :Pad
+    [ ""\n"" , 10, 4294967296, 0123456789 , ""abc"" ,	""" ++ [28040; 24687]%N ++ runes_of_ascii """
+    ] :
+i8i8 , 10 :
+    //x
+    Header , 10:// c
+calculatedFrom
+    , 0123456789: charz
+10
+    :
+    repeatCount} ,
+    leftPad @lengthOf(
+u8x )  , @lengthOf(a1) repeat x body ,
+} MetaData
+string_
+{ float64  f32a	, zchar[
+255] T, u32 trueish, BodyLength roots
+`two words` , }
+// " ++ [128512]%N ++ runes_of_ascii " emoji
+//	t
+packet stringy{ zchar[
+    255
+    ]Foo ,
+}
+MetaData
+leftPad {
+    } //
+options { x //x
+=
+true
+    ;
+zchar = """" } //")).
+Eval vm_compute in ("<<<M1801>>>" ++ check (runes_of_ascii "MetaData packetx {
+    zchar[7] leftPad `// not a comment`,
+}
 
-  MetaData
-    M{
+packet i64_ {
+    @calculatedFrom("""")
+    // trailing space 
+    // c
+    @lengthOf(x_y_z)
+    @tag(00)
+    repeatCount @calculatedFrom(""1""),
+}
 
-    u8
+packet falsey {
+    int16 _x @calculatedFrom(""it's""),
+}// @lengthOf(
 
-    x 
-`
-`  ,T
-    t `
-`
-	,}
+root packet matchKey {
+    repeat u32 Pad `" ++ [233]%N ++ runes_of_ascii "`,
+    zchar[7] leftPad,
+    match chars as lengthOf {
+        1 : o,
+        42 : chars,
+    },
+    repeat zchar[255] a1,
+    matchKey Packet,
+    f32 tag,
+    // @lengthOf(
+    // trailing space 
+    @calculatedFrom(""a\""b"")
+    @leftPad(' ')
+    @lengthOf(T)
+    stringy @lengthOf(o),
+    packetx i64_,
+}
+/// triple")).
+Eval vm_compute in ("<<<M1239>>>" ++ check (runes_of_ascii "// top
+options // c0
+{ // c1a
+  // c1b
+zchar // c2
+= // c3a
+  // c3b
+true // c4
+; Pad // c6a
+  // c6b
+=
+    // c7
+char[ 00 // c9a
+  // c9b
+]
+    // c10
+a1 = // c12a
+  // c12b
+uint32 // c13a
+  // c13b
+BodyLength = true // c16a
+  // c16b
+;
+    // c17
+} root // c19
+packet // c20
+T // c21a
+  // c21b
+{
+    // c22
+@lengthOf( // c23a
+  // c23b
+repeatCount ) @tag( // c26a
+  // c26b
+1
+    // c27
+) // c28a
+  // c28b
+@calculatedFrom( // c29
+""a	b"" // c30a
+  // c30b
+) // c31a
+  // c31b
+string // c32
+stringy @calculatedFrom( ""\n"" ) // c36
+`u8 x,` // c37a
+  // c37b
+, // c38
+} // c39
 ")).
-Eval vm_compute in ("<<<M1685>>>" ++ check (runes_of_ascii "packet body {
-    i32 f32a `{ , }`,
+Eval vm_compute in ("<<<M1685>>>" ++ check (runes_of_ascii "options {
+    leftPad = 0;
+    //
+    Logon = char// `tick` ""quote"" 'q'
+    i64_ = '\x00';
 }
 
 options {
-    // c
+    crc = i32;
+    matchKey = 255
+    leftPad = ' ';
+    metadata = 42;
+    packetx = 10
+}
+
+root packet A {
+    @calculatedFrom(""x y"")
+    /// triple
+    zchar[00] f32a,
+    @tag(255)
+    zchar[0123456789] a1 @lengthOf(As) `" ++ [28040; 24687; 31867; 22411]%N ++ runes_of_ascii "`,
+    int16 body,// `tick` ""quote"" 'q'
+    uint64 x @calculatedFrom(""1"") `line1
+        line2`,
+    @lengthOf(Logon)
+    char[0] float @calculatedFrom(""abc""),
+}
+
+MetaData u128 {
 }")).
-Eval vm_compute in ("<<<M1851>>>" ++ check (runes_of_ascii "
-packet
-
-A
-    {  u8
-    x , 
-    // c
-
-	u8
-y
-	,	}
-
+Eval vm_compute in ("<<<M133>>>" ++ check (runes_of_ascii "MetaData  falsey
+{ } root packet // `tick` ""quote"" 'q'
+o {@tag(3// " ++ [128512]%N ++ runes_of_ascii " emoji
+) @calculatedFrom( """") @lengthOf(
+    pack)char[ 65535
+    ]falsey
+    @lengthOf(falsey ) , }  root packet roots
+    {@lengthOf(
+chars )match Logon as chars{ ""`tick`"" :charz
+    // packet A { u8 x, }
+    ""a\\"" :Z9_ 007 : trueish ""CRC32"" :	msg_type , [
+3
+    ,3 // `tick` ""quote"" 'q'
+,
+00 ,4294967296 ,
+0
+,7 , //
+""x y"",""\" ++ [233]%N ++ runes_of_ascii """
+    //	t
+    ] : metadata ,""a	b""
+//x
+// " ++ [27880; 37322]%N ++ runes_of_ascii "
+:	crc } , }
 ")).
-Eval vm_compute in ("<<<M1216>>>" ++ check (runes_of_ascii "packet body { i32 f32a `{ , }` , } options
-// c
-{ }")).
-Eval vm_compute in ("<<<M1582>>>" ++ check (runes_of_ascii "packet  MetaDataX	{i16 
-u128 
-`" ++ [233]%N ++ runes_of_ascii "`
-, 	 //x
-	}
-
+Eval vm_compute in ("<<<M1140>>>" ++ check (runes_of_ascii "// top
+MetaData
+    // c0
+leftPad // c1
+{
+    // c2
+chars // c3a
+  // c3b
+MetaDataX // c4
+, // c5a
+  // c5b
+} packet // c7a
+  // c7b
+repeatCount // c8
+{ char[
+    // c10
+255 // c11a
+  // c11b
+] // c12a
+  // c12b
+uint8x
+    // c13
+`" ++ [233]%N ++ runes_of_ascii "` // c14a
+  // c14b
+,
+    // c15
+} // c16a
+  // c16b
+MetaData // c17a
+  // c17b
+pack // c18
+{ // c19a
+  // c19b
+As // c20a
+  // c20b
+Foo
+    // c21
+,
+    // c22
+} // c23a
+  // c23b
 ")).
-Eval vm_compute in ("<<<M724>>>" ++ check (runes_of_ascii "// @lengthOf(
+Eval vm_compute in ("<<<M1807>>>" ++ check (runes_of_ascii "packet leftPad {
+    @tag(10)
+    @tag(007)
+    @lengthOf(a1)
+    // a // b
+    //
+    repeat metadata,
+}// " ++ [128512]%N ++ runes_of_ascii " emoji
+
+options {
+    lengthOf = """ ++ [128512]%N ++ runes_of_ascii """;
+}
+
+packet T {
+    A {
+        //
+        // `tick` ""quote"" 'q'
+        tag @calculatedFrom(""abc""),
+    },
+    @lengthOf(matchKey)
+    string Header @lengthOf(metadata),
+    leftPad @calculatedFrom(""a\""b"") `crlf
+        line`,
+}")).
+Eval vm_compute in ("<<<M1234>>>" ++ check (runes_of_ascii "// top
+options // c0
+{ // c1
+f32a // c2
+= // c3
+0 // c4
+} // c5
+packet // c6
+trueish // c7
+{ // c8
+} // c9
+MetaData // c10
+_x // c11
+{ // c12
+char[ // c13
+0123456789 // c14
+] // c15
+zchar // c16
+, // c17
+string // c18
+crc // c19
+, // c20
+char[ // c21
+1 // c22
+] // c23
+options1 // c24
+, // c25
+uint8 // c26
+repeatCount // c27
+, // c28
+} // c29
+")).
+Eval vm_compute in ("<<<M240>>>" ++ check (runes_of_ascii "
+packet BodyLength { repeatCount // packet A { u8 x, }
+`// not a comment`
+,
+@lengthOf( lengthOf	)  @tag( 65535
+    )@rightPad (
+// @lengthOf(
+//	t
+'0' )/// triple
+u8 Logon , } packet chars { o msg_type , @tag( 10)zchar[ 65535
+] f32a
+,repeat char[]
+i64_
+`
+` ,} root packet f32a { @tag( 255 )repeat u8 stringy, }
+")).
+Eval vm_compute in ("<<<M287>>>" ++ check (runes_of_ascii "root // trailing space 
+packet int {
+    f32a @calculatedFrom(""packet"" )
+    `
+`
+    , } options
+{
+    rootA
+    // @lengthOf(
+    =
+""\" ++ [233]%N ++ runes_of_ascii """; }
+    packet
+i8i8 {
+    // trailing space 
+    uint8
+    uint8x
+    @lengthOf( string_ ) //	t
+, i32 tag //	t
+@lengthOf(
+Logon )  , }")).
+Eval vm_compute in ("<<<M361>>>" ++ check (runes_of_ascii "MetaData BodyLength { uint16 leftPad `" ++ [233]%N ++ runes_of_ascii "` // a // b
+, uint8x asx,
+    len lengthOf `// not a comment` ,
+string uint8x `doc`
+, }options {i8i8 = 0
+lengthOf =
+    0123456789 ; } packet uint8x { @lengthOf(
+pack ) float64
+u8x@lengthOf(asx //x
+)
+, }
+")).
+Eval vm_compute in ("<<<M1858>>>" ++ check (runes_of_ascii "packet matchKey {
+    // @lengthOf(
+    @lengthOf(a1)
+    string_ T `" ++ [28040; 24687; 31867; 22411]%N ++ runes_of_ascii "`,//
+}
+
+packet body {
+    f32 _x,
+    packetx @lengthOf(options1) ``,
+    @leftPad(' ')
+    i16 crc,
+    @calculatedFrom(""" ++ [128512]%N ++ runes_of_ascii """)
+    Pad,
+}//")).
+Eval vm_compute in ("<<<M1332>>>" ++ check (runes_of_ascii "packet u128 {
+    u8 a,
+}
+root packet Msg {
+    u8 k,
+    u24 {
+        u8 Hi,
+        u16 Lo,
+    },
+    repeat i24 {
+        u32 q,
+    },
+    u128,
+    u16 float32x,
+    string s,
+}
+")).
+Eval vm_compute in ("<<<M1435>>>" ++ check (runes_of_ascii "// top
+packet Inner {
+    // c2
+    u8 a,
+    // c5
+}// c6
+
+root packet P {
+    // c10a
+    // c10b
+    repeat Inner items,// c14
+    u8 x,// c17a
+    // c17b
+}// c18")).
+Eval vm_compute in ("<<<M392>>>" ++ check (runes_of_ascii "packet packet uint8x
+{ match pack
+    as msg_type	{
+    0123456789 :	float
+}
+,
+} packet //	t
+a1
+    { } options {packetx
+    = '\x00'	; u128= ""a	b""  ; }
+")).
+Eval vm_compute in ("<<<M552>>>" ++ check (runes_of_ascii "packet uint8x
+{ match pack
+    as msg_type	{
+    0123456789 :	float
+}
+,
+} packet //	t
+na" ++ [239]%N ++ runes_of_ascii "ve
+    { } options {packetx
+    = '\x00'	; u128= ""a	b""  ; }
+")).
+Eval vm_compute in ("<<<M539>>>" ++ check (runes_of_ascii "packet uint8x
+{ match pack
+    as msg_type	{
+    0123456789 :	float
+}
+,
+} p" ++ [8232]%N ++ runes_of_ascii "acket //	t
+a1
+    { } options {packetx
+    = '\x00'	; u128= ""a	b""  ; }
+")).
+Eval vm_compute in ("<<<M492>>>" ++ check (runes_of_ascii "packet uint8x
+{ match pack
+    as msg_type	{
+    0123456789 :	float
+}
+,
+} packet //	t
+a1
+    { } options {=
+    packetx '\x00'	; u128= ""a	b""  ; }
+")).
+Eval vm_compute in ("<<<M1749>>>" ++ check (runes_of_ascii "packet A {
+    match k as n {
+        [
+            ""a"", ""bb"", 007, ""d"", ""e"",
+            66, ""g"", ""h"", 9, ""j""
+        ] : B,
+        2 : C,
+    },
+}")).
+Eval vm_compute in ("<<<M670>>>" ++ check (runes_of_ascii "// @lengthOf(
 packet i8i8 { u128 o , }
-opt")).
-Eval vm_compute in ("<<<M1841>>>" ++ check (runes_of_ascii "
+options { MetaDataX = true;
+    BodyLength =""packet"" x_y_z= 007
+crc //x
+= ""abc"" ;
+    msg_type = =
+i16 }")).
+Eval vm_compute in ("<<<M679>>>" ++ check (runes_of_ascii "// @lengthOf(
+packet { i8i8 u128 o , }
+options { MetaDataX = true;
+    BodyLength =""packet"" x_y_z= 007
+crc //x
+= ""abc"" ;
+    msg_type =
+i16 }")).
+Eval vm_compute in ("<<<M669>>>" ++ check (runes_of_ascii "// @lengthOf(
+packet i8i8 {  o , }
+options { MetaDataX = true;
+    BodyLength =""packet"" x_y_z= 007
+crc //x
+= ""abc"" ;
+    msg_type =
+i16 }")).
+Eval vm_compute in ("<<<M1957>>>" ++ check (runes_of_ascii "MetaData leftPad  {chars MetaDataX,
+}  packet
+repeatCount { char[
+	255 ]uint8x
 
-  packet
-
-    int
-{ }  
-  //	t
- 
+    `" ++ [233]%N ++ runes_of_ascii "` , } MetaData  // c
+    pack {
+As	Foo ,
+	}
 ")).
-Eval vm_compute in ("<<<M952>>>" ++ check (runes_of_ascii "root packet A {
-    u8 x `x
-`,
-}")).
-Eval vm_compute in ("<<<M1008>>>" ++ check (runes_of_ascii "packet A {
- u8 x `d" ++ [8202]%N ++ runes_of_ascii "`, // c" ++ [8202]%N ++ runes_of_ascii "
-}")).
-Eval vm_compute in ("<<<M581>>>" ++ check (runes_of_ascii "
+Eval vm_compute in ("<<<M1492>>>" ++ check (runes_of_ascii "
 packet
-    asx {match u128")).
-Eval vm_compute in ("<<<M770>>>" ++ check (runes_of_ascii "EJYa-@ZpfaJe_ojrLyZC9M")).
-Eval vm_compute in ("<<<M211>>>" ++ check (runes_of_ascii "MetaData
-roots {
+
+    A
+
+    {	match k
+    as n
+{	[	""a""
+, ""bb""
+	,007	, ""d""
+    , ""e""
+,  66	,""g""
+
+,
+""h""
+,
+9
+    ]	: 
+B
+2
+:C} 
+,
+}
+")).
+Eval vm_compute in ("<<<M1142>>>" ++ check (runes_of_ascii "
+// c
+MetaData leftPad { chars MetaDataX , } packet repeatCount { char[ 255 ] uint8x `" ++ [233]%N ++ runes_of_ascii "` , } MetaData pack { As Foo , }")).
+Eval vm_compute in ("<<<M1166>>>" ++ check (runes_of_ascii "MetaData leftPad { chars MetaDataX , } packet repeatCount { char[ 255
+// c
+] uint8x `" ++ [233]%N ++ runes_of_ascii "` , } MetaData pack { As Foo , }")).
+Eval vm_compute in ("<<<M907>>>" ++ check (runes_of_ascii "packet A {
+  match k as n {
+    [""a"", ""bb"", ""c c"", ""d"", ""e"", ""f"", ""g"", ""h"", ""i"", ""j"", ""k"", ""l""] : B
+    2 : C
+  },
+}")).
+Eval vm_compute in ("<<<M910>>>" ++ check (runes_of_ascii "packet A {
+  match k as n {
+    [""a"", 22, ""c c"", 4, ""e"", 66, ""g"", 8, ""i"", 10, ""k"", 12] : B,
+    2 : C
+  },
+}")).
+Eval vm_compute in ("<<<M912>>>" ++ check (runes_of_ascii "packet A {
+  match k as n {
+    [1, 22, ""c c"", 4, 5, ""f"", 7, 8, ""i"", 10, 11, ""l""] : B,
+    2 : C
+  },
+}")).
+Eval vm_compute in ("<<<M620>>>" ++ check (runes_of_ascii "
+packet
+    asx {match u128 as lengthOf
+{
+//	t
+// `tick` ""quote"" 'q'
+255 : x ,
+    } @lengthOf(	}")).
+Eval vm_compute in ("<<<M573>>>" ++ check (runes_of_ascii "
+packet
+    asx {match u128 u128 as lengthOf
+{
+//	t
+// `tick` ""quote"" 'q'
+255 : x ,
+    } ,	}")).
+Eval vm_compute in ("<<<M474>>>" ++ check (runes_of_ascii "packet uint8x
+{ match pack
+    as msg_type	{
+    0123456789 :	float
+}
+,
+} packet //	t
+a1")).
+Eval vm_compute in ("<<<M858>>>" ++ check (runes_of_ascii "packet A {
+  match k as n {
+    [""a"", 22, ""c c"", 4, ""e"", 66, ""g"", 8] : B,
+    2 : C
+  },
+}")).
+Eval vm_compute in ("<<<M607>>>" ++ check (runes_of_ascii "
+packet
+    asx {match u128 as lengthOf
+{
+//	t
+// `tick` ""quote"" 'q'
+255 : x 
+    } ,	}")).
+Eval vm_compute in ("<<<M969>>>" ++ check (runes_of_ascii "packet A {
+    u32 crc @calculatedFrom(""x\
+y""),
+    @calculatedFrom(""x\
+y"") u8 y,
+}")).
+Eval vm_compute in ("<<<M748>>>" ++ check (runes_of_ascii "options match @lengthOf( options char[] zchar[ MetaData f32 f64 u16 ""{,}"" `doc` (")).
+Eval vm_compute in ("<<<M835>>>" ++ check (runes_of_ascii "packet A {
+  match k as n {
+    [1, 22, ""c c"", 4, 5, ""f""] : B
+    2 : C
+  },
+}")).
+Eval vm_compute in ("<<<M67>>>" ++ check (runes_of_ascii "options { charz =""1"" _x= """ ++ [128512]%N ++ runes_of_ascii """ u = string ; stringy=
+""" ++ [28040; 24687]%N ++ runes_of_ascii """ }
+// @lengthOf(
+")).
+Eval vm_compute in ("<<<M800>>>" ++ check (runes_of_ascii "packet A {
+  match k as n {
+    [1, 22, 007, 4] : B,
+    2 : C
+  },
+}")).
+Eval vm_compute in ("<<<M838>>>" ++ check (runes_of_ascii "packet A { Inner { match k as n { [1,22,007,4,5,66] : B, }, }, }")).
+Eval vm_compute in ("<<<M779>>>" ++ check (runes_of_ascii "packet A {
+  match k as n {
+    [1, 22] : B
+    2 : C
+  },
+}")).
+Eval vm_compute in ("<<<M760>>>" ++ check (runes_of_ascii "MetaData @rightPad 3 i32 int32 ; int8 body ""a	b"" `" ++ [28040; 24687; 31867; 22411]%N ++ runes_of_ascii "`")).
+Eval vm_compute in ("<<<M1206>>>" ++ check (runes_of_ascii "packet body { i32
+// c
+f32a `{ , }` , } options { }")).
+Eval vm_compute in ("<<<M347>>>" ++ check (runes_of_ascii "packet As{
+/// triple
+// packet A { u8 x, }
 }
 
 ")).
-Eval vm_compute in ("<<<M982>>>" ++ check (runes_of_ascii "// c" ++ [12288]%N ++ runes_of_ascii "
+Eval vm_compute in ("<<<M965>>>" ++ check (runes_of_ascii "options {
+    a = ""x\
+y"";
+    b = ""x\
+y""
+}")).
+Eval vm_compute in ("<<<M274>>>" ++ check (runes_of_ascii "packet Z9_
+{ }
+    packet Pad { } 	 ")).
+Eval vm_compute in ("<<<M1736>>>" ++ check (runes_of_ascii "packet A {
+    @tag(1)
+    u8 x,
+}")).
+Eval vm_compute in ("<<<M36>>>" ++ check (runes_of_ascii "// c
+packet asx  {} /// triple")).
+Eval vm_compute in ("<<<M270>>>" ++ check (runes_of_ascii "  root packet msg_type
+{
+}
+")).
+Eval vm_compute in ("<<<M1507>>>" ++ check (runes_of_ascii "// c" ++ [8287]%N ++ runes_of_ascii "
+    packet
+
+A
+{  }")).
+Eval vm_compute in ("<<<M1103>>>" ++ check (runes_of_ascii "// c
+MetaData tag { }")).
+Eval vm_compute in ("<<<M1483>>>" ++ check (runes_of_ascii "packet
+
+    o {}
+")).
+Eval vm_compute in ("<<<M1037>>>" ++ check (runes_of_ascii "// c" ++ [12]%N ++ runes_of_ascii "
 packet A {
 }")).
-Eval vm_compute in ("<<<M1083>>>" ++ check (runes_of_ascii "packet A { // a
- }")).
-Eval vm_compute in ("<<<M1230>>>" ++ check (runes_of_ascii "packet x { // c
-}")).
-Eval vm_compute in ("<<<M740>>>" ++ check (runes_of_ascii ", = , ; int16")).
-Eval vm_compute in ("<<<M1000>>>" ++ check (runes_of_ascii "// c" ++ [8192]%N)).
-Eval vm_compute in ("<<<M731>>>" ++ check (runes_of_ascii "/")).
+Eval vm_compute in ("<<<M1034>>>" ++ check (runes_of_ascii "packet A {
+}// c" ++ [12]%N)).
+Eval vm_compute in ("<<<M99>>>" ++ check (runes_of_ascii "
+ // " ++ [128512]%N ++ runes_of_ascii " emoji")).
+Eval vm_compute in ("<<<M980>>>" ++ check (runes_of_ascii "// c" ++ [12288]%N)).
+Eval vm_compute in ("<<<M745>>>" ++ check ([65533]%N ++ runes_of_ascii "1")).
